@@ -1,4 +1,5 @@
 //! Harness: backends, model, engine and one module per property.
+pub mod cmds;
 pub mod engine;
 pub mod fsutil;
 pub mod history;
